@@ -48,7 +48,9 @@ pub fn gen_stream(rng: &mut Rng, n: usize, out: &mut Vec<String>) {
         out.push(format!("stream {} {} {}", mode, items.join(","), if calls.is_empty() { "s".into() } else { calls }));
     }
 }
-pub fn gen_paged(rng: &mut Rng, n: usize, out: &mut Vec<String>) {
+pub fn gen_paged(rng: &mut Rng, n: usize, out: &mut Vec<String>) { gen_paged_x(rng, n, out, false) }
+pub fn gen_pagedstop(rng: &mut Rng, n: usize, out: &mut Vec<String>) { gen_paged_x(rng, n, out, true) }
+fn gen_paged_x(rng: &mut Rng, n: usize, out: &mut Vec<String>, early: bool) {
     for i in 0..n {
         let total = rng.below(30) as usize; let psize = 1 + rng.below(8) as usize;
         let npages = if total == 0 { 1 } else { (total + psize - 1) / psize };
@@ -63,6 +65,20 @@ pub fn gen_paged(rng: &mut Rng, n: usize, out: &mut Vec<String>) {
             pages.push(its.join(","));
         }
         let uc = format!("u{}{}", if i % 17 == 16 { "P" } else { "" }, rng.below(3));
+        if early && i % 17 != 16 {
+            // the caller finishes early, after k items; half of the time the server has not sent anything beyond those k items
+            // (the rest of that page, its final message included, is withheld), so that the page's search is still in flight
+            let k = rng.below(total as u64 + 1) as usize;
+            if rng.chance(1, 2) {
+                let mut seen = 0usize;
+                'pg: for pg in pages.iter_mut() {
+                    let mut its: Vec<String> = pg.split(',').map(|x| x.to_string()).collect();
+                    for j in 0..its.len() { if its[j].starts_with('d') || seen == k { if seen == k { its.insert(j, "w".into()); *pg = its.join(","); break 'pg; } } else { seen += 1; } }
+                }
+            }
+            out.push(format!("paged {} {} {} {}", psize, uc, pages.join(";"), k));
+            continue;
+        }
         out.push(format!("paged {} {} {}", psize, uc, pages.join(";")));
     }
 }
@@ -149,8 +165,11 @@ async fn run_stream(args: &[String]) -> (String, Option<String>) {
 }
 
 async fn run_paged(args: &[String]) -> (String, Option<String>) {
-    let Sess { ldap, mut server, driver: _d, .. } = new_sess();
+    let Sess { ldap, mut server, driver: _d, gauges, .. } = new_sess();
+    let table = ldap.verif_id_table_handle();
     let mut l = ldap.clone();
+    // optional 4th argument: the number of next() calls after which the caller finishes early ("-": read to the end)
+    let stop: Option<usize> = args.get(3).and_then(|x| x.parse().ok());
     let size: i32 = args[0].parse().unwrap();
     let uc = &args[1][1..];
     let with_paged = uc.contains('P'); let nother: usize = uc.replace('P', "").parse().unwrap();
@@ -184,6 +203,7 @@ async fn run_paged(args: &[String]) -> (String, Option<String>) {
                 if pi < pages2.len() {
                     let mut outb = vec![];
                     for it in &pages2[pi] {
+                        if it == "w" { break; }
                         let rest = &it[1..];
                         match it.as_bytes()[0] { b'e' => outb.extend(item_msg(id, 'e', rest.parse().unwrap(), &[])), b'r' => outb.extend(item_msg(id, 'r', rest.parse().unwrap(), &[])), b'i' => outb.extend(item_msg(id, 'i', rest.parse().unwrap(), &[])),
                             _ => { let f: Vec<&str> = rest.split('.').collect(); let mut cs = vec![];
@@ -203,21 +223,28 @@ async fn run_paged(args: &[String]) -> (String, Option<String>) {
     let started = l.streaming_search_with(PagedResults::new(size), "dc=x", Scope::Subtree, "(a=b)", vec!["cn"]).await;
     let mut st = match started { Ok(s) => s, Err(ldap3::LdapError::AdapterInit(_)) => return ("rejected".into(), if with_paged { None } else { Some("a search without a caller paging control was rejected".into()) }), Err(e) => return (format!("starterr:{}", err_class(&e)), None) };
     let mut items: Vec<String> = vec![]; let mut end = "active";
-    for _ in 0..10000 { match st.next().await { Ok(Some(re)) => { let s = show_entry(&re); items.push(if s.starts_with('r') { format!("r{}", String::from_utf8_lossy(&unhex(&s[1..])).trim_start_matches("ldap://t").to_string()) } else { s }); } Ok(None) => { end = "done"; break; } Err(_) => { end = "error"; break; } } }
+    for _ in 0..stop.unwrap_or(10000) { match st.next().await { Ok(Some(re)) => { let s = show_entry(&re); items.push(if s.starts_with('r') { format!("r{}", String::from_utf8_lossy(&unhex(&s[1..])).trim_start_matches("ldap://t").to_string()) } else { s }); } Ok(None) => { end = "done"; break; } Err(_) => { end = "error"; break; } } }
     let st_end = st.state();
     let res = st.finish().await;
     settle().await;
     let paged_in_final = res.ctrls.iter().any(|c| c.1.ctype == "1.2.840.113556.1.4.319");
     let others = res.ctrls.iter().filter(|c| c.1.ctype != "1.2.840.113556.1.4.319").count();
-    let out = format!("items=[{}] end={} rc={} paged_in_final={} others={} wire=[{}]", items.join(","), if end == "done" && st_end == StreamState::Done { "done" } else if end == "error" { "error" } else { end }, res.rc, if paged_in_final { 1 } else { 0 }, others, log.lock().unwrap().join(";"));
+    let left = { let m = table.lock().unwrap(); let g = gauges.lock().unwrap(); let mut ids: Vec<i32> = m.1.iter().copied().collect(); ids.sort();
+        format!("{}/{}/{}", ids.iter().map(|x| x.to_string()).collect::<Vec<_>>().join(","), g.0.iter().map(|x| x.to_string()).collect::<Vec<_>>().join(","), g.1.iter().map(|x| x.to_string()).collect::<Vec<_>>().join(",")) };
+    let out = format!("items=[{}] end={} rc={} paged_in_final={} others={} wire=[{}] left={}", items.join(","), if end == "done" && st_end == StreamState::Done { "done" } else if end == "error" { "error" } else { end }, res.rc, if paged_in_final { 1 } else { 0 }, others, log.lock().unwrap().join(";"), left);
     // oracle: the property itself, from the script
     let mut oracle = None;
     if with_paged { oracle = Some("a caller-supplied paging control was not rejected".into()); }
     else {
-        let want_items: Vec<String> = pages.iter().flat_map(|pg| pg.iter().filter(|x| !x.starts_with('d')).cloned()).collect();
+        let mut want_items: Vec<String> = pages.iter().flat_map(|pg| pg.iter().filter(|x| !x.starts_with('d') && *x != "w").cloned()).collect();
+        if let Some(k) = stop { want_items.truncate(k); }
+        // C13: the search is over (read to the end, or finished early): no id reserved, no routing entry left
+        if left != "//" { oracle = Some(format!("the paged search is finished but ids/routing entries {} are left behind", left)); }
+        // C10: finished before the end, the result is the synthetic cancellation (88), never a page's own result
+        if stop.is_some() && end != "done" && res.rc != 88 { oracle.get_or_insert(format!("finish() before the end of a paged search must return code 88 but returned {} (paging control in it: {})", res.rc, paged_in_final)); }
         if items != want_items { oracle = Some(format!("the adapter must yield the concatenation of all pages {:?} but yielded {:?}", want_items, items)); }
         let lg = log.lock().unwrap();
-        if lg.len() != pages.len() { oracle.get_or_insert(format!("{} pages scripted but {} requests were sent", pages.len(), lg.len())); }
+        if stop.is_none() && lg.len() != pages.len() { oracle.get_or_insert(format!("{} pages scripted but {} requests were sent", pages.len(), lg.len())); }
         for (i, e) in lg.iter().enumerate() {
             let f: Vec<&str> = e.split('/').collect();
             let want_ck = if i == 0 { "-".to_string() } else { pages[i - 1].last().unwrap()[1..].split('.').nth(1).unwrap().to_string() };
